@@ -54,6 +54,7 @@ type SpecFunc struct {
 	BodySrc    string
 	Recursive  bool
 	Opaque     bool // declared uninterpreted with a pattern-triggered defining axiom
+	Abstract   bool // like Opaque, but the defining axiom is only available on request (uses <name>.def)
 	Pkg        *ssa.Package
 	File       string
 	GoBody     string
@@ -453,14 +454,14 @@ func splitTop(s string) []string {
 	return out
 }
 
-var reSpecSig = regexp.MustCompile(`^(rec\s+|opaque\s+)?([A-Za-z_][A-Za-z0-9_]*)\s*\(([^)]*)\)\s*([A-Za-z0-9_.]+)\s*(=\s*(.*))?$`)
+var reSpecSig = regexp.MustCompile(`^(rec\s+|opaque\s+|abstract\s+)?([A-Za-z_][A-Za-z0-9_]*)\s*\(([^)]*)\)\s*([A-Za-z0-9_.]+)\s*(=\s*(.*))?$`)
 
 func (e *Engine) parseSpecFunc(s string, pkg *ssa.Package, path string) error {
 	m := reSpecSig.FindStringSubmatch(s)
 	if m == nil {
 		return fmt.Errorf("%s: bad spec function %q", path, s)
 	}
-	sf := &SpecFunc{Name: m[2], Recursive: strings.HasPrefix(m[1], "rec"), Opaque: strings.HasPrefix(m[1], "opaque"), Pkg: pkg, File: path}
+	sf := &SpecFunc{Name: m[2], Recursive: strings.HasPrefix(m[1], "rec"), Opaque: strings.HasPrefix(m[1], "opaque") || strings.HasPrefix(m[1], "abstract"), Abstract: strings.HasPrefix(m[1], "abstract"), Pkg: pkg, File: path}
 	if strings.TrimSpace(m[3]) != "" {
 		for _, p := range strings.Split(m[3], ",") {
 			f := strings.Fields(p)
@@ -539,7 +540,7 @@ func (u *Unit) specPreamble(extraAxioms []string) string {
 	for changed {
 		changed = false
 		for _, n := range e.specOrder {
-			if !e.usedSpec[n] {
+			if !u.usedSpec[n] {
 				continue
 			}
 			if _, done := defs[n]; done {
@@ -574,8 +575,11 @@ func (u *Unit) specPreamble(extraAxioms []string) string {
 						as = append(as, "p_"+sf.Params[i])
 					}
 					appl := "(" + n + " " + strings.Join(as, " ") + ")"
-					defs[n] = fmt.Sprintf("(declare-fun %s (%s) %s)\n(assert (forall (%s) (! (= %s %s) :pattern (%s))))", n, strings.Join(srt, " "), u.tc.smt(sf.Result),
-						strings.Join(ps, " "), appl, body.S, appl)
+					axiom := fmt.Sprintf("(assert (forall (%s) (! (= %s %s) :pattern (%s))))", strings.Join(ps, " "), appl, body.S, appl)
+					defs[n] = fmt.Sprintf("(declare-fun %s (%s) %s)", n, strings.Join(srt, " "), u.tc.smt(sf.Result))
+					if !sf.Abstract || u.usedLemmas[n+".def"] {
+						defs[n] += "\n" + axiom
+					}
 					changed = true
 					continue
 				}
@@ -616,6 +620,13 @@ func (u *Unit) specPreamble(extraAxioms []string) string {
 }
 
 func (u *Unit) axiomText(name string) string {
+	if strings.HasSuffix(name, ".def") {
+		fn := strings.TrimSuffix(name, ".def")
+		if sf := u.eng.specFuncs[fn]; sf != nil && sf.Abstract {
+			u.useSpec(fn)
+			return "; defining axiom of " + fn + " requested"
+		}
+	}
 	ax := u.eng.axioms[name]
 	if ax == nil {
 		panic(unsupported{"unknown axiom/lemma " + name})
